@@ -109,52 +109,53 @@ Definition aadd (a : astate) (l : list astate) : list astate := if amem a l then
 Definition aunion (x y : list astate) : list astate := fold_left (fun acc a => aadd a acc) y x.
 Definition asubset (x y : list astate) : bool := forallb (fun a => amem a y) x.
 
-Record res := { falls : list astate; rets : list astate; throws : list astate; unk : bool }.
-Definition res0 : res := {| falls := []; rets := []; throws := []; unk := false |}.
+Record res := { falls : list astate; rets : list astate; throws : list astate; xthrows : list astate; unk : bool }.
+(* throws: every point where an exception can leave (explicit throw or a call that may throw); xthrows: explicit throw statements only *)
+Definition res0 : res := {| falls := []; rets := []; throws := []; xthrows := []; unk := false |}.
 
 Definition step_mut (f : string) (a : astate) : astate := {| cleared := cleared a; muts := add f (muts a) |}.
 Definition cleared_state : astate := {| cleared := true; muts := [] |}.
 
 Definition run_eff (e : eff) (S : list astate) : res :=
   match classify e with
-  | KThrow => {| falls := []; rets := []; throws := S; unk := false |}
-  | KPure => {| falls := S; rets := []; throws := []; unk := false |}
-  | KMut f => {| falls := fold_left (fun acc a => aadd (step_mut f a) acc) S []; rets := []; throws := []; unk := false |}
-  | KClear => {| falls := match S with [] => [] | _ => [cleared_state] end; rets := []; throws := []; unk := false |}
-  | KCall None => {| falls := S; rets := []; throws := S; unk := false |}
-  | KCall (Some f) => {| falls := fold_left (fun acc a => aadd (step_mut f a) acc) S []; rets := []; throws := S; unk := false |}
-  | KUnknown => {| falls := S; rets := []; throws := S; unk := true |}
+  | KThrow => {| falls := []; rets := []; throws := S; xthrows := S; unk := false |}
+  | KPure => {| falls := S; rets := []; throws := []; xthrows := []; unk := false |}
+  | KMut f => {| falls := fold_left (fun acc a => aadd (step_mut f a) acc) S []; rets := []; throws := []; xthrows := []; unk := false |}
+  | KClear => {| falls := match S with [] => [] | _ => [cleared_state] end; rets := []; throws := []; xthrows := []; unk := false |}
+  | KCall None => {| falls := S; rets := []; throws := S; xthrows := []; unk := false |}
+  | KCall (Some f) => {| falls := fold_left (fun acc a => aadd (step_mut f a) acc) S []; rets := []; throws := S; xthrows := []; unk := false |}
+  | KUnknown => {| falls := S; rets := []; throws := S; xthrows := []; unk := true |}
   end.
 
 Fixpoint run (s : stmt) (S : list astate) : res :=
   match s with
-  | Skip => {| falls := S; rets := []; throws := []; unk := false |}
-  | Ret => {| falls := []; rets := S; throws := []; unk := false |}
+  | Skip => {| falls := S; rets := []; throws := []; xthrows := []; unk := false |}
+  | Ret => {| falls := []; rets := S; throws := []; xthrows := []; unk := false |}
   | Do e => run_eff e S
   | Seq a b =>
       let ra := run a S in
       let rb := run b (falls ra) in
       {| falls := falls rb; rets := aunion (rets ra) (rets rb); throws := aunion (throws ra) (throws rb);
-         unk := unk ra || unk rb |}
+         xthrows := aunion (xthrows ra) (xthrows rb); unk := unk ra || unk rb |}
   | If _ t e =>
       let rt := run t S in
       let re := run e S in
       {| falls := aunion (falls rt) (falls re); rets := aunion (rets rt) (rets re);
-         throws := aunion (throws rt) (throws re); unk := unk rt || unk re |}
+         throws := aunion (throws rt) (throws re); xthrows := aunion (xthrows rt) (xthrows re); unk := unk rt || unk re |}
   | Loop b =>
       (* only loops whose body does not change the grid are in the subset: the states after the body must be
          states that were already possible before it *)
       let rb := run b S in
-      {| falls := S; rets := rets rb; throws := throws rb;
+      {| falls := S; rets := rets rb; throws := throws rb; xthrows := xthrows rb;
          unk := unk rb || negb (asubset (falls rb) S) |}
   | Scope b =>
       let rb := run b S in
-      {| falls := aunion (falls rb) (rets rb); rets := []; throws := throws rb; unk := unk rb |}
+      {| falls := aunion (falls rb) (rets rb); rets := []; throws := throws rb; xthrows := xthrows rb; unk := unk rb |}
   | Try b h =>
       let rb := run b S in
       let rh := run h (throws rb) in
       {| falls := aunion (falls rb) (falls rh); rets := aunion (rets rb) (rets rh);
-         throws := aunion (throws rb) (throws rh); unk := unk rb || unk rh |}
+         throws := aunion (throws rb) (throws rh); xthrows := aunion (xthrows rb) (xthrows rh); unk := unk rb || unk rh |}
   end.
 
 (* inlining of the calls of other methods of the class *)
